@@ -10,8 +10,8 @@ derived from the same width constants; (c) the shard tag is the owning shard (C1
 Noted, not armed: ConditionEvaluator's synthetic id (zone_id << 32 | row) has no segment component.
 Does NOT decide behaviour under real clocks, > 4096 events/ms across a wait, or restart with a clock behind the last persisted id (last_millis is not recovered).
 """
-FLOOR = 7
-REQUIRED = ["C18.a", "C18.b1", "C18.b2", "C18.b3", "C18.d", "C18.e", "C18.f"]
+FLOOR = 8
+REQUIRED = ["C18.a", "C18.b1", "C18.b2", "C18.b3", "C18.d", "C18.e", "C18.f", "C18.g"]
 
 
 def const_val(F, path):
@@ -335,3 +335,26 @@ def run(ctx):
     ctx.run("C18.f", "K7 PROV", "SequenceMaterializer / SequenceStreamMerger::create_result_stream", "the rows of a sequence result carry their real id", f_)
 
     ctx.note("ConditionEvaluator::evaluate_zones_with_limit synthesises (zone_id << 32 | row) when event_id is missing/zero; not armed (reachability of a missing id column not demonstrated)")
+
+    def g_(inst):
+        # ids (~2^59) are read from result cells with ScalarValue::as_u64 / as_i64: the integer variants are read exactly, never through f64 (53 bits)
+        bad = []
+        for nm in ("ScalarValue::as_u64", "ScalarValue::as_i64"):
+            b = F.fn("engine::types::" + nm)
+            fam = [b] + [F.fn_exact(k) for k in F.find("^" + re.escape(b.key) + r"::\{closure")]
+            inst.sites.append("%s (+%d closures)" % (nm, len(fam) - 1))
+            for bb_ in fam:
+                for c_ in bb_.calls:
+                    if not c_.cleanup and re.search(r"ScalarValue::as_f64$|::to_f64$|f64::|parse$", c_.nname) and ("f64" in c_.nname or "f64" in (c_.ga or "")):
+                        bad.append(("id-read-through-float:%s" % nm.split("::")[-1], "%s converts through a float (%s): values above 2^53 - every event id - are rounded, distinct ids collide and the response de-duplication drops rows" % (nm, c_.nname), sp(bb_, c_.bb)))
+                for i_ in bb_.live_blocks():
+                    for st in bb_.blocks[i_]["s"]:
+                        v = st.get("v")
+                        if v and v["r"] == "cast" and v.get("ck") in ("IntToFloat", "FloatToInt"):
+                            bad.append(("id-read-through-float:%s" % nm.split("::")[-1], "%s casts %s: values above 2^53 - every event id - are rounded" % (nm, v.get("ck")), sp(bb_, i_)))
+        seen, out = set(), []
+        for x in bad:
+            if x[0] not in seen:
+                seen.add(x[0]); out.append(x)
+        return out
+    ctx.run("C18.g", "K4 EFFECT", "ScalarValue::as_u64 / as_i64", "integer cells (event ids) are read exactly, never through f64", g_)
